@@ -4,6 +4,7 @@ Also decides the RTSP clause of C02 (a subscriber of the Group that sends DESCRI
 described with the sequence header in force, starts at a key frame, is not held back without video) with the same acceptor."""
 import os, re, json
 import concurrent.futures as cf
+import os
 import engine as E
 from props.fanout_common import behaviours
 
@@ -351,6 +352,36 @@ def directed_rtsp(ctx, sc0):
             steps.append({"name": "End"})
             out.append({"sc": sc0 + len(out), "combo": combo, "steps": steps,
                         "cfg": {"v": v, "a": a, "gop": shape % 3, "hls": True, "fragMs": 100, "rtsp": True, "enh": v == "hevc" and shape % 2 == 1}})
+    # a track that shows up after lal's stages have ended (16+ messages of the other track): audio first, video later
+    for ci, combo in enumerate(("avc_aac", "hevc_opus")):
+        v, a = COMBOS[combo]
+        seq = []
+        if a == "aac":
+            seq.append(hdr("ash", 1))
+        for j in range(19):
+            seq.append(au(100 + j))
+        seq.append(hdr("vsh", 1))
+        for j in range(3):
+            seq.append(vm(j == 0, K if j == 0 else P))
+            seq.append(au(140 + j))
+        seq += ["DescR", "PlayR"]
+        for g in range(2):
+            for j in range(3):
+                seq.append(vm(j == 0, K if j == 0 else P))
+                seq.append(au(150 + 3 * g + j))
+        steps = [{"name": "Join", "c": "t1"}] if os.environ.get("VERIF_LATE_TS") else []
+        t = 20000
+        for m in seq:
+            if isinstance(m, str):
+                steps.append({"name": m})
+                continue
+            if m["k"] in ("v", "a"):
+                t += 20
+            steps.append({"name": "Pub", "m": m, "ts": t})
+        steps.insert(3, {"name": "JoinRtsp"})
+        steps.append({"name": "End"})
+        out.append({"sc": sc0 + len(out), "combo": combo, "steps": steps,
+                    "cfg": {"v": v, "a": a, "gop": 1, "hls": bool(os.environ.get("VERIF_LATE_TS")), "fragMs": 100, "rtsp": True, "enh": False}})
     return out
 
 
